@@ -75,6 +75,9 @@ fn install_panic_hook() {
                 "<non-string panic payload>".to_string()
             };
             let location = info.location().map(|l| format!("{}:{}", l.file(), l.line())).unwrap_or_default();
+            if std::env::var("VERIF_DEBUG_PANICS").is_ok() {
+                eprintln!("PANIC (panicking already: {}) at {}: {}", std::thread::panicking(), location, msg);
+            }
             let task = rec::current_task();
             LAST_PANIC.with(|p| {
                 if let Ok(mut p) = p.try_borrow_mut() {
